@@ -236,7 +236,10 @@ class SigmaFilter(SigmaRuleBase):
         # Using a single prefix (rather than a fresh random name per identifier) preserves
         # the structure of the original identifier names so that wildcard patterns in the
         # filter condition (e.g. "1 of selection_*") continue to work after renaming.
-        prefix = "_filt_" + "".join(random.choices(string.ascii_lowercase, k=10))
+        while True:
+            prefix = "_filt_" + "".join(random.choices(string.ascii_lowercase, k=10))
+            if not any(name.startswith(prefix) for name in rule.detection.detections.keys()):
+                break  # prefix must not collide with identifiers that already exist in the rule
 
         # Rename every filter detection identifier with the shared prefix.
         for original_cond_name, condition in self.filter.detections.items():
